@@ -48,13 +48,28 @@ func (m *Machine) byteArray(cells []*Term) *Node {
 	return n
 }
 
-// x25519Pub is the public key of a private key: injective uninterpreted function.
-func (m *Machine) x25519Pub(priv []*Term) []*Term { return m.idealFn("x25519pub", priv, 32, true) }
+// x25519Pub is the public key of a private key: an injective uninterpreted function of the CLAMPED scalar (RFC 7748:
+// bits 0..2 of the first byte and bit 7 of the last byte are cleared, bit 6 of the last byte is set before use, so
+// private keys that differ only there are the same key), with a canonical result (bit 255 clear).
+func (m *Machine) x25519Pub(priv []*Term) []*Term {
+	tt := m.tt
+	in := append([]*Term{}, priv...)
+	if len(in) == 32 {
+		in[0] = tt.Bin("bvand", in[0], tt.Const(8, 248))
+		in[31] = tt.Bin("bvor", tt.Bin("bvand", in[31], tt.Const(8, 127)), tt.Const(8, 64))
+	}
+	out := m.idealFn("x25519pub", in, 32, true)
+	m.sol().Assert(tt.Cmp("=", tt.Bin("bvand", out[31], tt.Const(8, 0x80)), tt.Const(8, 0)))
+	return out
+}
 
 // dhShared: DH(priv, peerPub) as an injective function of the unordered pair {pub(priv), peerPub}: both orders
 // are looked up so that DH(a, P(b)) = DH(b, P(a)).
 func (m *Machine) dhShared(priv, peer []*Term) []*Term {
 	own := m.x25519Pub(priv)
+	// RFC 7748: the most significant bit of the peer's u-coordinate is masked before the ladder
+	peer = append([]*Term{}, peer...)
+	peer[31] = m.tt.Bin("bvand", peer[31], m.tt.Const(8, 0x7f))
 	for _, a := range m.hashLog {
 		if a.fn != "x25519dh" || len(a.in) != 64 {
 			continue
